@@ -9,6 +9,9 @@ import (
 
 // genScript draws a producer script of n values (distinct per source) with an ending.
 func genScript(g *Gen, base, maxLen int, endings string, gaps bool) []Step {
+	if g.Tier == "thorough" {
+		maxLen += 2 // deeper bounds in the thorough tier
+	}
 	n := g.Range(0, maxLen)
 	var sc []Step
 	for i := 0; i < n; i++ {
